@@ -189,8 +189,19 @@ def _e2e_work(chunk):
                 if full.endswith(tail):
                     msg = full[:-len(tail)]
             ms = _RE_POS.findall(msg)
-            out.append({'p': refpat, 'pos': int(ms[-1]) if ms else -1, 'line': e.line, 'col': e.col,
-                        'ctx': e.context, 'msg': msg})
+            ev = {'p': refpat, 'pos': int(ms[-1]) if ms else -1, 'line': e.line, 'col': e.col,
+                  'ctx': e.context, 'msg': msg}
+            # the DEBUG flag changes no result: the same diagnostics with flags=DEBUG
+            try:
+                with contextlib.redirect_stdout(io.StringIO()):
+                    sv.compile(pat, namespaces=NAMESPACES, custom=custom, flags=sv.DEBUG)
+                ev['dbg'] = 'compiled'
+            except sv.SelectorSyntaxError as e2:
+                if (str(e2), e2.line, e2.col, e2.context) != (full, e.line, e.col, e.context):
+                    ev['dbg'] = 'SelectorSyntaxError %r line=%r col=%r' % (str(e2).split('\n')[0], e2.line, e2.col)
+            except Exception as e2:
+                ev['dbg'] = '%s: %s' % (type(e2).__name__, str(e2).split('\n')[0])
+            out.append(ev)
         except Exception:
             other += 1
     return ncompiled, other, out
@@ -362,6 +373,38 @@ def _pretty_work(args):
 
 
 # ---------------------------------------------------------------------------------------------
+# the four parts run side by side; each records into its own Rec, merged in a fixed order
+# ---------------------------------------------------------------------------------------------
+
+class Rec:
+    """Stand-in for common.Check inside one part (a thread): records the calls, applied later in order."""
+    _METHODS = ('violation', 'machinery', 'count', 'add_distinct', 'nontrivial', 'sample', 'add_tlc')
+
+    def __init__(self):
+        self.calls = []
+        self.drift = []
+        self.notes = {}
+        self.coverage = {'states': 0, 'transitions': 0}
+
+    def __getattr__(self, name):
+        if name in Rec._METHODS:
+            return lambda *a, **k: self.calls.append((name, a, k))
+        raise AttributeError(name)
+
+    def apply(self, chk):
+        for name, a, k in self.calls:
+            getattr(chk, name)(*a, **k)
+        chk.drift += self.drift
+        chk.coverage['states'] += self.coverage['states']
+        chk.coverage['transitions'] += self.coverage['transitions']
+        for k, v in self.notes.items():
+            if k == 'tlc_runs':
+                chk.notes.setdefault('tlc_runs', []).extend(v)
+            else:
+                chk.notes[k] = v
+
+
+# ---------------------------------------------------------------------------------------------
 # TLC helpers
 # ---------------------------------------------------------------------------------------------
 
@@ -389,12 +432,18 @@ def _validate_trace(module, cfg, events, workers=1, batch=4000, timeout=3600, ex
     -> (verdict tuples [(kind, id, rest)], distinct, generated, errors)"""
     tmpd = tempfile.mkdtemp(prefix='verif_c20_tr_')
     files = []
-    for b in range(0, len(events), batch):
+    if isinstance(batch, int):
+        sizes = [min(batch, len(events) - b) for b in range(0, len(events), batch)]
+    else:
+        sizes = [n for n in batch if n]
+    b = 0
+    for n in sizes:
         path = os.path.join(tmpd, 't%d.ndjson' % b)
         with open(path, 'w') as f:
-            for e in events[b:b + batch]:
+            for e in events[b:b + n]:
                 f.write(json.dumps(e) + '\n')
-        files.append((path, len(events[b:b + batch])))
+        files.append((path, n))
+        b += n
     results = [None] * len(files)
 
     def one(k):
@@ -536,8 +585,8 @@ def part_errctx(chk, pool, tier):
                 if ndrift <= 12:
                     chk.drift.append('errctx (%s): (%r, %d) -> %r, specification %r' % (
                         _b1_group(ev), p, ev['pos'], got, tuple(ev['exp'])))
-        if ndrift > 12:
-            chk.drift += ['errctx: accepted with drift'] * (ndrift - 12)
+                else:
+                    chk.drift.append('errctx (%s): (%r, %d)' % (_b1_group(ev), p, ev['pos']))
         chk.notes['errctx']['accepted_with_drift'] = ndrift
     chk.sample({'cfg': label, 'pattern': 'x\\r\\nx', 'offset': 4,
                 'spec': 'line 2, col 2; context "    x\\n--> x\\n     ^"'})
@@ -596,6 +645,17 @@ def gen_e2e(tier):
     return pats
 
 
+def _e2e_group(e):
+    kind = re.sub(r"'[^']*'", "'..'", e['msg'].split(' at position')[0].split(' position')[0].split(' found')[0])[:44]
+    if e['pos'] < 0:
+        where = 'no position in the message'
+    elif e['pos'] == len(e['p']):
+        where = 'offset == len(pattern)'
+    else:
+        where = 'offset inside the pattern'
+    return '%s [%s]' % (kind, where)
+
+
 def part_e2e(chk, pool, tier):
     pats = gen_e2e(tier)
     chunks = [pats[i::64] for i in range(64)]
@@ -607,6 +667,12 @@ def part_e2e(chk, pool, tier):
         other += o
         events += evs
     events.sort(key=lambda e: (e['p'], e['msg']))
+    for e in events:
+        if 'dbg' in e:
+            chk.violation('%s|debug|%r' % (LABEL_E2E, e['p']),
+                          'flags=DEBUG changes the outcome of compile(%r): %r without, %s with' % (e['p'], e['msg'], e['dbg']),
+                          {'cfg': LABEL_E2E, 'group': 'DEBUG changes the diagnostics', 'pattern': e['p'],
+                           'replay': {'part': 'e2e', 'pattern': e['p']}})
     noline = [e for e in events if e['line'] is None or e['ctx'] is None]
     nolineids = {id(e) for e in noline}
     events = [e for e in events if id(e) not in nolineids]
@@ -625,7 +691,7 @@ def part_e2e(chk, pool, tier):
     chk.coverage['states'] += distinct
     chk.coverage['transitions'] += generated
     chk.notes.setdefault('tlc_runs', []).append({'cfg': 'trace-c20-e2e', 'distinct': distinct, 'generated': generated})
-    chk.count(len(events), traces=len(events))
+    chk.count(2 * len(events), traces=len(events))
     byid = {e['id']: e for e in events}
     nopos = sum(1 for e in events if e['pos'] < 0)
     multi = sum(1 for e in events if '\n' in e['p'] or '\r' in e['p'])
@@ -644,14 +710,13 @@ def part_e2e(chk, pool, tier):
             chk.violation('%s|%r|%s' % (LABEL_E2E, e['p'], e['msg'][:60]),
                           'compile(%r) -> %r: line=%r col=%r context=%r; %s, the specification demands (line, col)=%s '
                           'and a caret under that column' % (e['p'], e['msg'], e['line'], e['col'], e['ctx'], where, rest),
-                          {'cfg': LABEL_E2E, 'selector': e['msg'].split(' at position')[0].split(' position')[0][:40],
+                          {'cfg': LABEL_E2E, 'group': _e2e_group(e),
                            'pattern': e['p'], 'event': e, 'spec_expected': rest,
                            'replay': {'part': 'e2e', 'pattern': e['p']}})
         elif kind == 'DRIFT':
             ndrift += 1
-            if ndrift <= 8:
-                chk.drift.append('e2e: compile(%r): line=%r col=%r context=%r accepted, not literally the documented format' % (
-                    e['p'], e['line'], e['col'], e['ctx']))
+            chk.drift.append('e2e: compile(%r): line=%r col=%r context=%r accepted, not literally the documented format' % (
+                e['p'], e['line'], e['col'], e['ctx']))
     chk.notes['e2e']['accepted_with_drift'] = ndrift
     s = next((e for e in events if e['pos'] >= 0 and '\r\n' in e['p'] and e['line'] > 1), events[0])
     chk.sample({'cfg': LABEL_E2E, 'pattern': s['p'], 'message': s['msg'], 'line': s['line'], 'col': s['col'],
@@ -761,7 +826,7 @@ def _shorten(txt):
 
 
 def part_pretty(chk, pool, tier):
-    factor = 1000 if tier == 'quick' else 5000
+    factor = 300 if tier == 'quick' else 2000
     sels = list(dict.fromkeys(POOL + PRETTY_EXTRA))
     jobs = []
     for k, s in enumerate(sels):
@@ -785,18 +850,25 @@ def part_pretty(chk, pool, tier):
     for r in good:
         byrepr.setdefault(r['repr'], []).append(r)
     reprs = sorted(byrepr, key=lambda s: (len(s), s))
-    if tier == 'quick':
-        # all reprs on which the real code does not return, plus the shortest others, bounded volume
-        hang = [s for s in reprs if any(x['status'] != 'ok' for x in byrepr[s])]
-        rest = [s for s in reprs if s not in set(hang)]
-        reprs_m = hang[:60] + rest[:40]
-    else:
-        reprs_m = reprs
-    evs = [{'id': 'm%d' % k, 's': common.cps(s)} for k, s in enumerate(reprs_m)]
+    reprs_m = reprs
+    # deal the reprs round-robin (they are sorted by length) into batches, one single-worker JVM each
+    nb = 4
+    order = [s for b in range(nb) for s in reprs_m[b::nb]]
+    per = [len(reprs_m[b::nb]) for b in range(nb)]
+    evs = [{'id': 'm%d' % k, 's': common.cps(s)} for k, s in enumerate(order)]
     model = {}
+    runs = {}
+
+    def run_model(rules):
+        runs[rules] = _validate_trace('Trace_C20pretty', 'Trace_C20pretty_' + rules, evs, workers=1,
+                                      batch=per, exact_states=False)
+    mts = [threading.Thread(target=run_model, args=(r,)) for r in ('asis', 'fixed')]
+    for t in mts:
+        t.start()
+    for t in mts:
+        t.join()
     for rules in ('asis', 'fixed'):
-        tuples, distinct, generated, errors, _ = _validate_trace('Trace_C20pretty', 'Trace_C20pretty_' + rules, evs,
-                                                               workers=8, batch=10 ** 9, exact_states=False)
+        tuples, distinct, generated, errors, _ = runs[rules]
         for e in errors:
             chk.machinery('pretty trace (%s): %s' % (rules, e))
         chk.coverage['states'] += distinct
@@ -808,7 +880,7 @@ def part_pretty(chk, pool, tier):
             verdict[rid] = (kind, rest)
         if len(verdict) != len(evs) and not errors:
             chk.machinery('pretty trace (%s): %d verdicts for %d inputs' % (rules, len(verdict), len(evs)))
-        model[rules] = {reprs_m[int(rid[1:])]: v for rid, v in verdict.items()}
+        model[rules] = {order[int(rid[1:])]: v for rid, v in verdict.items()}
     fixed_stuck = [s for s, v in model['fixed'].items() if v[0] != 'DONE']
     if fixed_stuck:
         chk.machinery('pretty model: the repaired token rules get stuck on a real repr: %r' % fixed_stuck[0][:200])
@@ -877,21 +949,36 @@ def main(tier):
         'the context is gated on the format-independent predicate Shows (lines reproduced after a common prefix, one caret '
         'row under the reported line with the caret in the column); the literal "--> " format is drift only',
         'non-termination = no return within %s x len(repr) + 20000 line events of soupsieve/pretty.py (sys.settrace)' % (
-            '1000' if tier == 'quick' else '5000'),
+            '300' if tier == 'quick' else '2000'),
     ]
     ctx = mp.get_context('fork')
     pool = ctx.Pool(16, initializer=_winit)      # forked before any thread is started
+    import time
     try:
         results = {}
         ths = _run_model_configs(results)
-        import time
-        for part in (part_errctx, part_e2e, part_debug, part_pretty):
+        parts = [part_errctx, part_e2e, part_debug, part_pretty]
+        recs = [Rec() for _ in parts]
+        crashes = [None] * len(parts)
+
+        def run(k):
             t0 = time.time()
-            part(chk, pool, tier)
+            try:
+                parts[k](recs[k], pool, tier)
+            except Exception:
+                import traceback
+                crashes[k] = traceback.format_exc()
             if os.environ.get('C20_TIMING'):
-                print('  [%s %.1fs]' % (part.__name__, time.time() - t0))
-        for t in ths:
+                print('  [%s %.1fs]' % (parts[k].__name__, time.time() - t0))
+        pts = [threading.Thread(target=run, args=(k,)) for k in range(len(parts))]
+        for t in pts:
+            t.start()
+        for t in pts + ths:
             t.join()
+        for k, r in enumerate(recs):
+            r.apply(chk)
+            if crashes[k]:
+                chk.machinery('%s crashed: %s' % (parts[k].__name__, crashes[k][-1500:]))
         part_pretty_model(chk, results)
     finally:
         pool.close()
